@@ -65,9 +65,13 @@ def specStep (s : SpecSt) (ws : List String) : SpecSt × String :=
         let permittedNamed : Bool := match nm with
           | some k => g.check k
           | none => if isListing then true else g.check []
+        -- creating a namespace without naming an id: the server picks a fresh id, which no list mentions
+        if ep.endsWith "namespaces.add" && (nm.isNone || nm == some []) then (s0, "-") else
         match ans with
         | ["refused"] =>
-          if permittedNamed && !(isListing && nm.isNone) then
+          -- a request that names no namespace at all may be refused by a handler (its own default decides)
+          -- … and so may the creation of a namespace without an id (the server would pick a fresh id)
+          if permittedNamed && nm.isSome && !(ep.endsWith "namespaces.add" && nm == some []) then
             (s0, s!"spec FAIL refused although the namespace is whitelisted and not blacklisted")
           else (s0, "spec ok")
         | ["served", r] =>
